@@ -203,7 +203,11 @@ class DataFrameSchemaBackend(PandasSchemaBackend):
             # make sure the schema component mutations are reverted after
             # validation
             _orig_dtype = schema_component.dtype
-            _orig_coerce = schema_component.coerce
+            # a MultiIndex reports ``coerce`` as True when any of its levels
+            # coerces: save its own flag, not that summary
+            _orig_coerce = getattr(
+                schema_component, "_coerce", schema_component.coerce
+            )
 
             try:
                 if schema.dtype is not None:
